@@ -219,7 +219,7 @@ def check(run: common.Run, drv: common.Driver, rng: random.Random, tier: str) ->
     n = 40 if tier == "quick" else 900
     with R.Scratch() as sc:
         for k in range(n):
-            g = G.SchemaGen(rng, G.GenOpts())
+            g = G.SchemaGen(rng, G.GenOpts(shared_nested_names=0.35, twin_scopes=0.3))
             s = g.schema()
             text = G.schema_text(s, rng)
             path = sc.write(f"g{k}.bitproto", text)
